@@ -1883,7 +1883,9 @@ impl Server {
         
         let mut new_members = 0;
         
-        // Process each score-member pair
+        // Parse every score-member pair before touching the set, so that a
+        // refused command adds nothing
+        let mut pairs = Vec::with_capacity((parts.len() - 2) / 2);
         for i in (2..parts.len()).step_by(2) {
             let score = match &parts[i] {
                 RespFrame::BulkString(Some(bytes)) => {
@@ -1900,6 +1902,10 @@ impl Server {
                 _ => return Ok(RespFrame::error("ERR invalid member format")),
             };
             
+            pairs.push((member, score));
+        }
+        
+        for (member, score) in pairs {
             // Add to sorted set 
             if self.storage.zadd(db, key.clone(), member, score)? {
                 new_members += 1;
